@@ -189,6 +189,12 @@ def run(ctx: Ctx) -> None:
             rep.info("C19.R5", sync.qname, "record location is not expressed in terms of the path (not judged)", puts[0].where())
     rep.floor("C19.R5", n5, 1)
 
+    # ---- R7: one copy location per path ----------------------------------------------------------------------------
+    from .storerules import uri_join_keeps_names
+    rep.rule("C19.R7", "as C08.R7: the URI join removes separator syntax only, so the copies of '/.a/b' and '/a/b' do not overwrite each other")
+    n7 = uri_join_keeps_names(ctx, "C19.R7")
+    rep.floor("C19.R7", n7, 1)
+
     # ---- R1 decode ------------------------------------------------------------------------------
     docs = documented_commit_types(ctx)
     f = prog.funcs.get("dds._api.set_store")
